@@ -75,7 +75,8 @@ def load_module(path, name):
 PKG = os.path.join(REPO, "src", "sas_lexer")
 TT = load_module(os.path.join(PKG, "token_type.py"), "v_token_type").TokenType
 TC = load_module(os.path.join(PKG, "token_channel.py"), "v_token_channel").TokenChannel
-EK = load_module(os.path.join(PKG, "error_kind.py"), "v_error_kind").ErrorKind
+EK_MOD = load_module(os.path.join(PKG, "error_kind.py"), "v_error_kind")
+EK = EK_MOD.ErrorKind
 
 
 def class_fields(path, cls):
@@ -437,11 +438,48 @@ def linked_crate_enums():
                 out.append((m.group(1), int(m.group(3)) if m.group(3) else None))
         return out
 
+    def rust_str(lit):
+        """value of the body of a Rust string literal (escapes and line continuations resolved)"""
+        out, i = [], 0
+        while i < len(lit):
+            c = lit[i]
+            if c != "\\":
+                out.append(c); i += 1; continue
+            n = lit[i + 1]
+            if n == "\n":
+                i += 2
+                while i < len(lit) and lit[i] in " \t\n\r":
+                    i += 1
+            elif n == "\r" and lit[i + 2:i + 3] == "\n":
+                i += 3
+                while i < len(lit) and lit[i] in " \t\n\r":
+                    i += 1
+            elif n == "x":
+                out.append(chr(int(lit[i + 2:i + 4], 16))); i += 4
+            elif n == "u":
+                j = lit.index("}", i)
+                out.append(chr(int(lit[i + 3:j].replace("_", ""), 16))); i = j + 1
+            else:
+                out.append({"n": "\n", "r": "\r", "t": "\t", "0": "\0", "\\": "\\", "'": "'", '"': '"'}[n]); i += 2
+        return "".join(out)
+
+    def messages(body):
+        """{variant name: message} from #[strum(message = "...")] attributes"""
+        out = {}
+        for m in re.finditer(r'#\[strum\(\s*message\s*=\s*"((?:[^"\\]|\\.)*)"\s*,?\s*\)\]\s*([A-Za-z][A-Za-z0-9_]*)', body, re.S):
+            out[m.group(2)] = rust_str(m.group(1))
+        return out
+
+    global CRATE_MESSAGES
+    CRATE_MESSAGES = {upper_snake(n): t for n, t in messages(enum_body("error.rs", "ErrorKind")).items()}
     tt = [(upper_snake(n, digit_boundaries=False), i) for i, (n, _) in enumerate(variants(enum_body("token_type.rs", "TokenType")))]
     ch_v = variants(enum_body("channel.rs", "TokenChannel"))
     ch = [(n, v if v is not None else i) for i, (n, v) in enumerate(ch_v)]
     ek = sorted(((upper_snake(n), v) for n, v in variants(enum_body("error.rs", "ErrorKind")) if v is not None), key=lambda x: x[1])
     return tt, ch, ek
+
+
+CRATE_MESSAGES = {}
 
 
 def enum_half():
@@ -481,6 +519,16 @@ def enum_half():
             if got != exp:
                 k = next((i for i, (a, b) in enumerate(zip(got, exp)) if a != b), min(len(got), len(exp)))
                 v.append(("enum-files", f"enum-files:differs-from-linked-crate:{E.__name__}", f"{E.__name__}: shipped enum differs from the linked crate's declaration at member {k}: shipped {got[k] if k < len(got) else '<missing>'} vs crate {exp[k] if k < len(exp) else '<missing>'} ({len(got)} vs {len(exp)} members)"))
+        # ... including the message texts the error-kind module ships for each member
+        shipped = getattr(EK_MOD, "ERROR_MESSAGE", None)
+        if isinstance(shipped, dict) and CRATE_MESSAGES:
+            n_msg = 0
+            for m in EK:
+                if m.name in CRATE_MESSAGES and m in shipped:
+                    n_msg += 1
+                    if shipped[m] != CRATE_MESSAGES[m.name]:
+                        v.append(("enum-files", f"enum-files:message-differs-from-linked-crate:{m.name}", f"ERROR_MESSAGE[{m.name}] is {shipped[m]!r}, the linked crate declares {CRATE_MESSAGES[m.name]!r}"))
+            stats["labels"]["enum-message-comparison"] = n_msg
         stats["labels"]["enum-source-comparison"] = sum(len(x) for x in lc)
     return v, compared, members
 
@@ -682,6 +730,24 @@ def main():
                 violations.append((p, False, rule, sig, msg, "border-code-point"))
     stats["labels"]["origin:border-code-point"] = borders
 
+    # 2a'. sizes at which the wire format changes its encoding (msgpack array / bin / int widths) or a buffer is likely
+    # to be handled differently: token counts, error counts and literal-buffer lengths around 2^4, 2^8 and 2^16, and one
+    # payload above 1 MiB followed by small programs (which must get their own results)
+    sized = []
+    big = (65534, 65535, 65536) if tier == "quick" else (65533, 65534, 65535, 65536, 65537, 131071, 131072)
+    for n in (14, 15, 16, 17, 254, 255, 256, 257) + big:
+        sized.append(";" * n)
+    for n in (15, 16, 17, 255, 256, 257) + ((65535, 65536) if tier == "quick" else big):
+        sized.append("'g'x;" * n)
+    for n in (31, 32, 33, 255, 256, 257, 65535, 65536, 65537, 70001):
+        sized.append("x = '" + "a" * (n - 2) + "''b';\n")
+    sized.append("  x = 'a''b';\n" * 22000)
+    sized.append("data a; x = 'it''s'; y = 1.5e3; run;\n" * 9000)
+    sized += ["x = 'it''s';", "", ";", "data a; run;"]
+    for p in sized:
+        for rule, sig, msg in account(p, False, "size-boundary"):
+            violations.append((p, False, rule, sig, msg, "size-boundary"))
+
     # 2b. call histories: the payload returned for a string must describe *that* string, whatever was lexed before it.
     # A source and a same-length neighbour (one character inside a quoted literal changed) are passed as temporary
     # objects, so that the second one usually reuses the memory of the first; the contract is checked on what the
@@ -752,7 +818,7 @@ def main():
         "coverage": {
             "evaluations": stats["evaluations"],
             "distinct_nontrivial": len(stats["nontrivial"]),
-            "rule": "cases: construct-grammar programs and generated soups exported by the Rust harness (same generators as C01-C15), the real-world .sas files, Hypothesis text (fragment lists, weighted characters, arbitrary Unicode), every code point below U+0530 and a selection of higher ones at the start / end / inside a literal of a small program, all through the real extension module; plus the finite comparison of the committed enum/class modules with the build script's output; distinct = distinct source; non-trivial = the result has an error, a numeric/string payload, or the source has a non-ASCII character",
+            "rule": "cases: construct-grammar programs and generated soups exported by the Rust harness (same generators as C01-C15), the real-world .sas files, Hypothesis text (fragment lists, weighted characters, arbitrary Unicode), token / error / literal-buffer counts around 2^4, 2^8, 2^16 and a payload above 1 MiB followed by small programs, every code point below U+0530 and a selection of higher ones at the start / end / inside a literal of a small program, all through the real extension module; plus the finite comparison of the committed enum/class modules with the build script's output; distinct = distinct source; non-trivial = the result has an error, a numeric/string payload, or the source has a non-ASCII character",
             "samples": list(stats["samples"].values()),
             "exhaustive": False,
             "enum_files_compared": files_compared,
